@@ -488,7 +488,27 @@ func (q *quantEval) count(e ast.Expr) (civ, bool) {
 					// empty(): look into the function: an automaton accepting only ε -> [0,0]; trusted by name-free shape: no parameters
 					return constIv(0, 0), true
 				case len(v.Args) == 1 && !v.Ellipsis.IsValid():
-					// cloneNode(x)
+					// a one-argument helper: if its body is a single return expression, that expression counts (with the
+					// helper's parameter standing for the argument, when the argument is the operand itself); a helper with a
+					// longer body is a copy function (cloneNode(x)) and counts as its argument
+					if hd := declOfFunc(q.p, fo); hd != nil && hd.Body != nil && len(hd.Body.List) == 1 && hd.Type.Params != nil && len(hd.Type.Params.List) == 1 && len(hd.Type.Params.List[0].Names) == 1 {
+						if ret, ok := hd.Body.List[0].(*ast.ReturnStmt); ok && len(ret.Results) == 1 {
+							argc, okArg := q.count(v.Args[0])
+							if !okArg {
+								return civ{}, false
+							}
+							if argc.String() != constIv(1, 1).String() {
+								q.err = "helper " + fo.Name() + " applied to something else than the operand"
+								return civ{}, false
+							}
+							q2 := &quantEval{p: q.p, info: q.info, operand: q.info.Defs[hd.Type.Params.List[0].Names[0]], accs: map[types.Object]civ{}}
+							r, ok := q2.count(ret.Results[0])
+							if !ok {
+								q.err = q2.err
+							}
+							return r, ok
+						}
+					}
 					return q.count(v.Args[0])
 				case len(v.Args) == 1 && v.Ellipsis.IsValid():
 					// concat(ns...)
@@ -1010,41 +1030,54 @@ func checkPipeline(c *Ctx) {
 	}
 	// the returned automaton: chain of methods on the parsed NFA containing ToDFA, all from the language-preserving set
 	preserving := map[string]bool{"ToDFA": true, "Minimize": true, "EliminateDeadStates": true, "ReindexStates": true, "EliminateUnreachableStates": true, "Clone": true}
+	// on the value flow: from every successful return back to nfa.Parse, the methods applied on the way (a chain written as
+	// one expression, step by step through variables, or mixed)
 	chainOK, hasToDFA := false, false
 	var chain []string
-	ast.Inspect(fd.Body, func(n ast.Node) bool {
-		as, ok := n.(*ast.AssignStmt)
-		if !ok || len(as.Rhs) != 1 {
-			return true
-		}
-		e := ast.Unparen(as.Rhs[0])
-		var names []string
-		for {
-			call, ok := e.(*ast.CallExpr)
-			if !ok {
-				break
+	if fn := c.SSAFunc(sp, fd); fn != nil {
+		for _, b := range fn.Blocks {
+			ret, ok := b.Instrs[len(b.Instrs)-1].(*ssa.Return)
+			if !ok || len(ret.Results) != 2 || !isNilConst(retOperand(ret, 1)) {
+				continue
 			}
-			sel, ok := call.Fun.(*ast.SelectorExpr)
-			if !ok || len(call.Args) != 0 {
-				break
-			}
-			names = append([]string{sel.Sel.Name}, names...)
-			e = ast.Unparen(sel.X)
-		}
-		if id, ok := e.(*ast.Ident); ok && nfaVar != nil && info.Uses[id] == nfaVar && len(names) > 0 {
-			chain = names
-			chainOK = true
-			for _, nme := range names {
-				if nme == "ToDFA" {
-					hasToDFA = true
+			var names []string
+			reached := false
+			v := retOperand(ret, 0)
+			for i := 0; i < 16 && v != nil; i++ {
+				switch x := v.(type) {
+				case *ssa.Call:
+					if n := staticCalleeName(x); strings.HasSuffix(n, "regex/parser/nfa.Parse") {
+						reached = true
+						v = nil
+						continue
+					}
+					if callee := x.Call.StaticCallee(); callee != nil && callee.Signature.Recv() != nil && len(x.Call.Args) >= 1 {
+						names = append([]string{callee.Name()}, names...)
+						v = x.Call.Args[0]
+						continue
+					}
+					v = nil
+				case *ssa.Extract:
+					v = x.Tuple
+				default:
+					v = nil
 				}
-				if !preserving[nme] {
-					chainOK = false
+			}
+			if reached && len(names) > 0 {
+				chain = names
+				chainOK = true
+				for _, nme := range names {
+					if nme == "ToDFA" {
+						hasToDFA = true
+					}
+					if !preserving[nme] {
+						chainOK = false
+					}
 				}
 			}
 		}
-		return true
-	})
+	}
+	_ = nfaVar
 	c.Check("R2.4", "the automaton is the parsed NFA determinised and post-processed by language-preserving steps only", fd.Pos(), chainOK && hasToDFA,
 		fmt.Sprintf("method chain on the parsed NFA: %v", chain))
 }
